@@ -61,6 +61,8 @@ func checkC11(c *core.Ctx, r *core.Report) {
 		"(1) PAIR — every sync.Mutex/RWMutex acquisition in the ingest/metadata/query packages is released on every exit (direct, deferred, or deferred closure), no unlock of a lock that is not held, no second acquisition of a lock that is certainly held (including recursive read locks); " +
 		"(2) LOCKORDER — the held→acquired relation over lock classes (package-level mutexes and (type).field mutexes), built from per-instruction may-held sets and transitive may-acquire summaries over static calls, has no cycle among distinct classes and no self-edge on a package-level lock; " +
 		"(3) HELD — every access (update, delete, lookup, range) of the shared tables allSegStores, AllUnrotatedSegmentInfo, RecentlyRotatedSegmentFiles, globalMetadata's maps/slices, allVirtualTables … happens with the table's lock must-held in the accessing function or in every caller (obligation propagated up the static call graph), writes need the write mode; insertion into allSegStores is re-checked under the write lock (no check-then-act); " +
+		"(5) HOLDWAIT — a goroutine started while its spawner holds a lock, and waited for (WaitGroup, channel) before the spawner releases it, never acquires that lock itself in any mode (a queued writer would block the worker, the spawner blocks the writer, the worker blocks the spawner); " +
+		"(6) a SegStore is removed from allSegStores only after its flush in the same write-locked section, on an unused-test made with the write lock held, or when its whole index is deleted; " +
 		"(4) ORDER hand-over — the writer makes a segment visible as rotated before removing it from the unrotated table, and every function that snapshots both tables (segments or columns) reads the unrotated one first; the search chooses the open-segment block resolution only on the live answer of IsSegKeyUnrotated."
 	r.NotCovered = "data races on fields outside the guarded tables, at-most-once delivery when a segment is in both snapshots, equality with a sequential execution, liveness beyond lock-order acyclicity (channels, wait groups)"
 	a := lockAnalysis(c)
@@ -72,6 +74,8 @@ func checkC11(c *core.Ctx, r *core.Report) {
 	checkLockOrder(c, r, a, scope, nil)
 	checkHeldTables(c, r, a)
 	checkHandOver(c, r)
+	checkHoldWait(c, r, a, scope)
+	checkUnregister(c, r, a)
 }
 
 // ---------------------------------------------------------------------------
